@@ -245,6 +245,10 @@ func (w *World) opPrune(n *Node, s *Step) {
 				break
 			}
 		}
+		// anywhere in the list, also in front of the cached ones
+		pr := SubRng(s.Seed^uint64(n.idx)*0x70c3, "prune-mix")
+		pr.Shuffle(len(hs), func(i, j int) { hs[i], hs[j] = hs[j], hs[i] })
+		w.stats.Reach["prune_list_with_uncached_hashes"]++
 	}
 	hs = padH(hs)
 	w.stats.Events++
